@@ -337,7 +337,7 @@ pub fn exec(c: &Case) -> Outcome {
             Ok(ch) => {
                 let id = ch.channel_id();
                 let r = ch.basic_publish("", Publish::new(b"after the stall", "late")).and_then(|_| ch.qos(0, 0, false));
-                std::mem::forget(ch);
+                crate::run::bury(ch);
                 r.map(|_| id).map_err(|e| format!("{:?}", e))
             }
             Err(e) => Err(format!("open_channel: {:?}", e)),
